@@ -25,7 +25,7 @@ DEADLINE = {"quick": 60, "thorough": 600}
 
 
 def REQUIRED(tier):
-    req = {"rotate:root": 20, "rotate:via-associative-rule": 5, "rotate:histories": 100, "rotate:rule-sequences": 20, "rotate:local-histories": 1000}
+    req = {"rotate:root": 20, "rotate:via-associative-rule": 5, "rotate:histories": 100, "rotate:rule-sequences": 20, "rotate:local-histories": 1000, "rotate:deep": 20}
     for side in ("left", "right"):
         for g in ("no-grandparent", "under-L", "under-R"):
             for inner in ("inner", "no-inner"):
@@ -98,6 +98,33 @@ def run(rec, cfg):
         drive(rec, s, {"raw": fac["raw"]})
         rec.arm("shapes:random-large")
         rec.sample({"shape": W9.shape_str(s)[:120], "nodes": W9.count(s)})
+    # deep trees: chains and zig-zags far deeper than any random shape, rotated at many depths
+    # (including just below/above round numbers), and the deepest operators of long parsed sums
+    if cfg.shard < 4:
+        for n_nodes, side in ((130, "L"), (130, "R"), (380, "L"), (380, "R"), (380, "Z"), (257, "Z")):
+            s = W9.zigzag(n_nodes) if side == "Z" else W9.chain(n_nodes, side)
+            depths = sorted(set([1, 2, 31, 32, 33, 63, 64, 65, 99, 100, 101, 127, 128, 129, 199, 200, 201, 255, 256, 257, n_nodes - 2, n_nodes - 1]
+                                + [rng.randrange(1, n_nodes) for _ in range(6)]))
+            for d in depths:
+                if d >= n_nodes or d % 4 != cfg.shard:
+                    continue
+                root = W9.build(s, fac["raw"])
+                node = root
+                for _ in range(d):
+                    node = node.left if node.left is not None else node.right
+                node.rotate()
+                rec.arm("rotate:deep")
+        from mathy_core.parser import ExpressionParser as _PP
+        from mathy_core.rules import AssociativeSwapRule as _AG
+
+        for terms in (40, 140):
+            t = " + ".join("x%s" % "" for _ in range(terms)).replace("x", "a")
+            root = _PP().parse(t)
+            nodes = _AG().find_nodes(root)
+            for n in nodes[:: max(1, len(nodes) // 12)]:
+                c = n.clone_from_root()
+                _AG().apply_to(c)
+                rec.arm("rotate:deep-parsed-sum")
     # rotation HISTORIES: rotations interleaved with other structural edits through the public API
     # (child swaps, moving subtrees between trees, wrapping, detaching) on the same node objects,
     # so that anything a node remembered about its neighbours is stale when it is rotated next
